@@ -149,7 +149,7 @@ fn c05_next_request_after_dirty_clear() {
 // =================================================================================================
 // K1 — header names compare case-insensitively; repeated headers are joined in order
 // =================================================================================================
-// @verif prop=C02 tier=quick replay=none mem=16 bounds="`Host` in any of its 16 casings, value 2 symbolic bytes; typed getter and get() in another casing"
+// @verif prop=C02 tier=quick replay=none mem=24 bounds="`Host` in any of its 16 casings, value 2 symbolic bytes; typed getter and get() in another casing"
 #[kani::proof]
 #[kani::stub(core::str::from_utf8, stubs::from_utf8_model)]
 #[kani::unwind(12)]
@@ -188,7 +188,7 @@ fn c02_get_by_name_without_custom_headers() {
     std::mem::forget(req);
 }
 
-// @verif prop=C02 tier=quick replay=none kind=witness finding=c02-header-case mem=10 bounds="`Host` in any of its 16 casings"
+// @verif prop=C02 tier=quick replay=none kind=witness finding=c02-header-case mem=20 bounds="`Host` in any of its 16 casings"
 #[kani::proof]
 #[kani::stub(core::str::from_utf8, stubs::from_utf8_model)]
 #[kani::unwind(12)]
